@@ -383,9 +383,10 @@ def scenario_c18(scn):
     L.setup_env()
     srv = Srv(scn.get('logdir'))
     idmap = {int(k): v for k, v in (scn.get('idmap') or {1: 1, 2: 2, 3: 3}).items()}
+    droute = scn.get('droute') or 'wait'          # which RemoteContext method this history deletes through
     reps, lives = [], []
     ctxobj, workers, raws = {}, {}, {}
-    notes = {'helpers': -1, 'server_error': '', 'idmap': {str(k): v for k, v in idmap.items()}, 'died_at': 0}
+    notes = {'helpers': -1, 'server_error': '', 'idmap': {str(k): v for k, v in idmap.items()}, 'died_at': 0, 'droute': droute}
     obs = {'rep': reps, 'live': lives, 'srv_alive': 'F', 'fresh': []}
 
     def one(n, q):
@@ -400,7 +401,17 @@ def scenario_c18(scn):
         if op == 'delete':
             o = ctxobj.get(q['id'])
             if o is not None and o.is_alive():
-                r = L.bounded(o.wait, 3 * HANG)
+                # through the client-side route of this history: wait() / terminate() return the outcome, close() returns
+                # nothing - there the object's own is_alive() afterwards says whether the client considers it deleted
+                if droute == 'close':
+                    def via_close():
+                        o.close()
+                        return not o.is_alive()
+                    r = L.bounded(via_close, 3 * HANG)
+                elif droute == 'terminate':
+                    r = L.bounded(o.terminate, 3 * HANG)
+                else:
+                    r = L.bounded(o.wait, 3 * HANG)
             else:
                 r = L.bounded(_raw_delete, 3 * HANG, srv.addr, cid)
             # which workers are still alive shortly after the reply (API and OS), without touching them
